@@ -10,7 +10,6 @@ package asserts_test
 // validity boundaries of the keys.
 
 import (
-	"bytes"
 	"fmt"
 	"regexp"
 	"sort"
@@ -765,6 +764,7 @@ func (w *verifC18) judge(v *verifView, d asserts.Assertion, exact, same *verifSi
 		if same != nil {
 			if framing, where := verifFramingOnly(same.sigDec, dec); framing {
 				c.Count("probe:reframed-signature-accepted")
+				c.Count("accepted-reframing:" + strings.SplitN(how, "@", 2)[0])
 				if op == "add" {
 					v.framed[bk] = true
 					w.applyAccepted(v, same)
@@ -930,6 +930,5 @@ func (w *verifC18) findStored() {
 	}
 }
 
-var _ = bytes.Equal
 
 var verifProbesC18 = []string{"probe:accepted-exactly-at-since", "probe:accepted-under-constraints", "probe:account-key-revision-changed-window", "probe:altered-rejected", "probe:checked-exactly-at-until", "probe:clock-lands-exactly-on-boundary", "probe:find-after-deliveries", "probe:invalid-rejected", "probe:reframed-signature-accepted", "probe:same-assertion-accepted-then-rejected", "probe:same-assertion-rejected-then-accepted", "probe:timestamp-exactly-at-until", "probe:valid-accepted"}
